@@ -33,6 +33,13 @@ where
     }
 }
 
+impl<H, B> CloseStream for DatagramSender<H, B>
+where
+    H: SendDatagram<B>,
+    B: Buf,
+{
+}
+
 impl<H, B> DatagramSender<H, B>
 where
     H: SendDatagram<B>,
@@ -55,8 +62,16 @@ where
             SendDatagramErrorIncoming::NotAvailable => SendDatagramError::NotAvailable,
             SendDatagramErrorIncoming::TooLarge => SendDatagramError::TooLarge,
             SendDatagramErrorIncoming::ConnectionError(error) => {
-                self.set_conn_error_and_wake(error.clone());
-                SendDatagramError::ConnectionError(ConnectionError::Remote(error))
+                // The first error wins: report the error the connection has ended with,
+                // converted like every other handle converts it.
+                match self.handle_quic_stream_error(
+                    quic::StreamErrorIncoming::ConnectionErrorIncoming {
+                        connection_error: error.clone(),
+                    },
+                ) {
+                    StreamError::ConnectionError(e) => SendDatagramError::ConnectionError(e),
+                    _ => SendDatagramError::ConnectionError(ConnectionError::Remote(error)),
+                }
             }
         }
     }
